@@ -103,6 +103,26 @@ def rule_client_pairing(repo, chk):
             chk.ob('h', h.ref, 'the handshake failure path closes without announcing `disconnected` (no `connected` was announced for this connection)', bool(quiet) or connected_before,
                    loc(h, c), detail=f'`{src(c)}`; parameters of _close that switch the announcement off: {quiet_params}', discr='failed-handshake-quiet')
     need(n_err >= 1, 'C12.h: TCPClient.connect has no handshake failure path that closes')
+    # … and every way the handshake can fail reaches that callback: a reset or close by the peer during the handshake is an OSError that is no SSLError
+    dh = repo.func(SOCKETS, 'do_handshake')
+    chk.touch(dh)
+    gd = dh.cfg()
+    from sa.cfg import handler_names
+    calls = [n for n in gd.nodes if n.kind == 'stmt' and any(isinstance(c.func, ast.Attribute) and c.func.attr == 'do_handshake' for c in calls_in(n.ast))]
+    need(calls, 'C12.h: do_handshake() never performs the handshake')
+    for n in calls:
+        hs = [e.dst for e in n.succ if e.kind == 'x' and e.dst.kind == 'except']
+        broad = [h for h in hs if handler_names(h.ast) is None or set(handler_names(h.ast)) & {'OSError', 'Exception', 'BaseException', 'EnvironmentError', 'IOError', 'socket.error', 'error'}]
+        ok = bool(broad)
+        path = None
+        for h in broad:
+            reg = pat.region(gd, 'except', h.ast)
+            told = [m for m in reg if m.kind in ('stmt', 'test') and m.ast is not None and any(call_name(c) == dh.params[2] for c in calls_in(m.ast))]
+            p = pat.escapes_region(gd, h, reg, lambda m: m in told, exits=('exit',))
+            if p is not None or not told:
+                ok, path = False, p
+        chk.ob('h', dh.ref, 'a handshake that fails with any OSError (the peer resets or closes the connection during it), not only with an SSLError, is reported to the '
+                            'failure callback', ok, loc(dh, n.ast), path=pat.path_lines(path) if path else None, discr='handshake-failure-reported')
 
 
 def _run(repo, chk):
